@@ -8,7 +8,7 @@ use pdatastructs::num_traits::{CheckedAdd, NumCast, One, ToPrimitive, Unsigned, 
 use serde_json::{json, Value};
 use std::collections::BTreeMap;
 
-pub const RULE: &str = "random histories of add / add_n (incl. weight 0 and large weights) / merge (with an independently built sketch) / clear on counter types u8,u16,u32,u64,usize and (w,d) incl. w != d, deep (d > 64) and large (w*d > 2^16) tables, hashers Mix/Sip/Collide/Constant/Identity/Layout; exact HashMap oracle over all touched keys plus never-added probes after every operation; add/add_n return value compared with query_point taken immediately afterwards; single-distinct-key streams must be exact. non-trivial = history with >= 2 distinct keys and >= 1 merge or add_n; distinct = (type, config, op sequence) hashes";
+pub const RULE: &str = "random histories of add / add_n (incl. weight 0 and large weights) / merge (with an independently built sketch) / clear on counter types u8,u16,u32,u64,usize and (w,d) incl. w != d, deep (d > 64) and large (w*d > 2^16) tables, hashers Mix/Sip/Collide/Constant/Identity/Layout; exact HashMap oracle over all touched keys plus never-added probes after every operation; add/add_n return value compared with query_point taken immediately afterwards; single-distinct-key streams must be exact; exceeding the counter maximum (by add_n and by merge) must panic as documented, never wrap; Extend equals a loop of add. non-trivial = history with >= 2 distinct keys and >= 1 merge or add_n; distinct = (type, config, op sequence) hashes";
 pub const ASSUMPTIONS: &[&str] = &[
     "total weight is kept <= C::MAX because counter overflow panics are documented behaviour",
 ];
@@ -194,6 +194,78 @@ where
     }
 }
 
+/// Counter overflow is documented to panic. A sketch that keeps counting past the maximum of its
+/// counter type without panicking must still satisfy the oracle — it cannot, so that is a violation
+/// (silent wrap-around = underestimate).
+fn overflow_behaviour(rep: &mut Report) {
+    macro_rules! case {
+        ($t:ty, $name:expr) => {{
+            for via_merge in [false, true] {
+                rep.evaluations += 1;
+                let max = <$t>::MAX as u128;
+                let res = guarded(|| -> Option<(String, String)> {
+                    let mut c: CountMinSketch<u64, $t, CtlBuildHasher> = CountMinSketch::with_params_and_hasher(4, 3, CtlBuildHasher::mix(9));
+                    let big: $t = <$t>::MAX - 3;
+                    c.add_n(&1u64, &big);
+                    let r = if via_merge {
+                        let mut o: CountMinSketch<u64, $t, CtlBuildHasher> = CountMinSketch::with_params_and_hasher(4, 3, CtlBuildHasher::mix(9));
+                        o.add_n(&1u64, &10);
+                        guarded(|| c.merge(&o)).map(|_| ())
+                    } else {
+                        guarded(|| {
+                            c.add_n(&1u64, &10);
+                        })
+                    };
+                    match r {
+                        Err(_) => None, // documented panic
+                        Ok(()) => {
+                            let q = c.query_point(&1u64) as u128;
+                            let truth = max - 3 + 10;
+                            if q < truth {
+                                Some(("C02/underestimate/overflow-wraps-silently".into(), format!("cms<{}>: weights {} + 10 for one key exceed the counter maximum; no panic, and query_point = {} < true weight {}", $name, max - 3, q, truth)))
+                            } else {
+                                None
+                            }
+                        }
+                    }
+                });
+                match res {
+                    Ok(None) => rep.count("overflow_cases", 1),
+                    Ok(Some((sig, what))) => rep.violation(sig, what, json!({"type": $name, "via_merge": via_merge})),
+                    Err(msg) => rep.violation(format!("C02/panic/{}", panic_class(&msg)), msg, json!({"type": $name})),
+                }
+            }
+        }};
+    }
+    case!(u8, "u8");
+    case!(u16, "u16");
+    case!(u32, "u32");
+    case!(u64, "u64");
+    case!(usize, "usize");
+    // Extend is a loop of add()
+    rep.evaluations += 1;
+    let res = guarded(|| -> Option<(String, String)> {
+        let keys: Vec<u64> = (0..500u64).map(|i| i * i % 97).collect();
+        let mut a: CountMinSketch<u64> = CountMinSketch::with_params(64, 4);
+        let mut b: CountMinSketch<u64> = CountMinSketch::with_params(64, 4);
+        a.extend(keys.iter().copied());
+        for k in &keys {
+            b.add(k);
+        }
+        for k in 0..100u64 {
+            if a.query_point(&k) != b.query_point(&k) {
+                return Some(("C02/extend-differs-from-adds".into(), format!("after extend() of 500 keys query_point({}) = {} but {} after the same keys through add()", k, a.query_point(&k), b.query_point(&k))));
+            }
+        }
+        None
+    });
+    match res {
+        Ok(None) => {}
+        Ok(Some((sig, what))) => rep.violation(sig, what, json!({})),
+        Err(msg) => rep.violation(format!("C02/panic/{}", panic_class(&msg)), msg, json!({})),
+    }
+}
+
 pub fn run(ctx: &Ctx) -> Report {
     let n = match (ctx.tier, ctx.is_dbg()) {
         (Tier::Quick, false) => 20_000,
@@ -202,6 +274,9 @@ pub fn run(ctx: &Ctx) -> Report {
         (Tier::Thorough, true) => 20_000,
     };
     par_run(ctx, n, |i, rep| {
+        if i == 0 {
+            overflow_behaviour(rep);
+        }
         let mut r = FastRng::new(ctx.sub_seed(&[i as u64]));
         match i % 5 {
             0 => run_type::<u8>("u8", u8::MAX as u128, &mut r, rep),
